@@ -145,3 +145,10 @@ mod tests {
         }
     }
 }
+
+// verification-only hook (off by default): the multiply-add that signing uses, with caller-chosen operands
+#[cfg(feature = "verif-hooks")]
+/// (verification hook) `(a * b + c) mod L` through the backend's crate-private `muladd`
+pub fn verif_muladd(a: &Scalar, b: &Scalar, c: &Scalar) -> Scalar {
+    muladd(a, b, c)
+}
